@@ -155,6 +155,17 @@ theorem nil_midstate_unread_tap (H : Bytes → Bytes) (sh : SigHashes) (ht : UIn
       calcTaprootSignatureHashRaw H sh ht tx idx fetch o :=
   Lemmas.tap_nil_unread H sh ht tx idx fetch o h
 
+/-- Inside the interpreter the digest is the same whether `NewEngine` was given the precomputed
+midstate of the transaction or none (segwit v0 always; taproot since the fix of F-C07-a, before
+which a nil midstate was dereferenced). -/
+theorem engine_digest_with_or_without_midstate (H : Bytes → Bytes) (sub : Bytes) (ht : UInt32)
+    (tx : Tx) (idx : Nat) (amt : UInt64) (fetch : OutPoint → TxOut) (o : TaprootSigHashOptions) :
+    engineWitnessDigest H none sub ht tx idx amt fetch =
+      engineWitnessDigest H (some (newTxSigHashes H tx fetch)) sub ht tx idx amt fetch ∧
+    engineTaprootDigest H none ht tx idx fetch o =
+      engineTaprootDigest H (some (newTxSigHashes H tx fetch)) ht tx idx fetch o :=
+  ⟨rfl, rfl⟩
+
 /-- HashCache is a map: what `AddSigHashes` stored is what `GetSigHashes` returns, other
 transactions are unaffected, `PurgeSigHashes` removes. -/
 theorem hashcache_laws (c : HashCache) (txid t : Bytes) (s : SigHashes) :
